@@ -128,6 +128,26 @@ Theorem C04_init_wf : wf init /\ st_dir init = Absorbing.
 Proof. exact init_wf. Qed.
 Print Assumptions C04_init_wf.
 
+(* ---- the primitive-free instance: the FIPS-202 transcription of Keccak/PermutationN.v (lanes
+   as N; agrees with keccak_f on the sample states of PermutationN.v — a test); these instance
+   theorems are Closed under the global context ---- *)
+Theorem C04_flen_N : flen keccak_f_N.
+Proof. exact (fun a _ => keccak_f_N_length a). Qed.
+Print Assumptions C04_flen_N.
+
+Theorem C04_refines_spec_N : forall ops,
+  run keccak_f_N init ops = spec_run keccak_f_N (AAbs []) ops.
+Proof. exact (run_init keccak_f_N C04_flen_N). Qed.
+Print Assumptions C04_refines_spec_N.
+
+Theorem C04_chunking_N : forall chunks,
+  match writes keccak_f_N init chunks with
+  | Ok s => match read keccak_f_N s output_len with Ok (_, h) => Ok h | Panic c => Panic c end
+  | Panic c => Panic c
+  end = Ok (keccak256_N (concat chunks)).
+Proof. exact (chunking_read keccak_f_N C04_flen_N). Qed.
+Print Assumptions C04_chunking_N.
+
 (* ---- the instance: Keccak-f[1600] of Keccak/Permutation.v, reference keccak256 ---- *)
 Theorem C04_flen_keccak : flen keccak_f.
 Proof. exact (fun a _ => keccak_f_length a). Qed.
@@ -150,26 +170,6 @@ Theorem C04_keccak256_impl_keccak : forall s data,
   wf s -> keccak256_impl keccak_f s data = Ok (keccak256 (concat data)).
 Proof. exact (keccak256_impl_spec keccak_f C04_flen_keccak). Qed.
 Print Assumptions C04_keccak256_impl_keccak.
-
-(* ---- the primitive-free instance: the FIPS-202 transcription of Keccak/PermutationN.v (lanes
-   as N; agrees with keccak_f on the sample states of PermutationN.v — a test); these instance
-   theorems are Closed under the global context ---- *)
-Theorem C04_flen_N : flen keccak_f_N.
-Proof. exact (fun a _ => keccak_f_N_length a). Qed.
-Print Assumptions C04_flen_N.
-
-Theorem C04_refines_spec_N : forall ops,
-  run keccak_f_N init ops = spec_run keccak_f_N (AAbs []) ops.
-Proof. exact (run_init keccak_f_N C04_flen_N). Qed.
-Print Assumptions C04_refines_spec_N.
-
-Theorem C04_chunking_N : forall chunks,
-  match writes keccak_f_N init chunks with
-  | Ok s => match read keccak_f_N s output_len with Ok (_, h) => Ok h | Panic c => Panic c end
-  | Panic c => Panic c
-  end = Ok (keccak256_N (concat chunks)).
-Proof. exact (chunking_read keccak_f_N C04_flen_N). Qed.
-Print Assumptions C04_chunking_N.
 
 (* non-vacuity: [flen] is met by keccak_f (above), [wf] by [init]; a concrete script exercising
    block boundaries, Sum in the middle, Read across the rate boundary, the panics and Reset;
